@@ -75,14 +75,17 @@ def replay(ctx, spec, path):
         return 1
     data = os.path.join(vf.BUILD, "replay_%s_%d.v" % (ctx.pid, os.getpid()))
     side = data[:-2] + ".json"
-    rc, hout = vf.harness(spec["cmd"], ["-seed", 1, "-n", 1, "-out", data, "-json", side, "-extra", "replay=" + os.path.abspath(path)])
+    tier = r.get("tier", "quick")
+    rc, hout = vf.harness(spec["cmd"], ["-seed", r.get("seed", 1), "-tier", "thorough" if tier == "search" else tier,
+                                        "-n", r["case"].get("n", 0), "-out", data, "-json", side,
+                                        "-extra", "replay=" + os.path.abspath(path)])
     if rc != 0:
         print("harness failed:\n" + hout[-2000:])
         return 1
     sj = json.load(open(side))
     print("implementation (this tree):")
     for g, cs in sj.get("cases", {}).items():
-        if g == r["group"] or r["group"] in ("hs", "cs", "oh", "single") and g == r["group"]:
+        if g == r["group"] and cs:
             print(json.dumps(cs[0], indent=1))
     for what, tmpl, hdr in (("property on the implementation's output", spec["prop"], spec["header"]),
                             ("model vs implementation", spec["corr"], spec["header"] + "\n" + spec.get("gen_header", ""))):
